@@ -3,11 +3,52 @@ from oracles import geom_o as GO
 from props import _geom
 
 LEVEL = "other"
-DEDUCTIVE = []
-TRUSTED = ["numpy", "scipy KD-tree", "ordered_set.OrderedSet", "CPython 3.12"]
-ASSUMPTIONS = ["A-real"]
-EXPLANATION = "see DESIGN.md 4/C11"
-
+DEDUCTIVE = [
+    {"module": "rnapolis.common", "sidecar": "contracts.annotator_c",
+     "targets": ["LeontisWesthof.reverse", "lemma:lw_reverse_involution", "lemma:saenger_pinned_table_reverse_symmetric",
+                 "lemma:saenger_real_table_reverse_symmetric"]},
+    {"module": "rnapolis.annotator", "sidecar": "contracts.annotator_c", "targets": ["detect_saenger", "detect_bph_br_classification"]},
+    {"module": "rnapolis.tertiary", "sidecar": "contracts.annotator_c", "targets": ["Residue3D.find_atom"]},
+]
+TRUSTED = [
+    "CPython 3.12 (enum lookup by name, dict lookup, f-strings, tuple comparison as encoded by pyvc)",
+    "rnapolis.tertiary.torsion_angle(a1, a2, a3, a4): a real number depending only on the four (frozen) atoms, AttributeError on None "
+    "(its value is the subject of C18; here only the sign test -90 < degrees(t) < 90 matters and both sides use the same uninterpreted symbols)",
+    "math.degrees: uninterpreted in these targets (nothing assumed)",
+    "ordered_set.OrderedSet, collections.defaultdict: NOT modelled - merge_and_clean_bph_br is checked by exhaustive evaluation of the real function only (see EXPLANATION)",
+    "z3 / cvc5 string and array theories",
+]
+ASSUMPTIONS = [
+    "a LeontisWesthof parameter is modelled as the record (name, value) constrained to the 18 members read from the real enum; Residue3D / Atom are heap objects "
+    "that these functions do not write (frame obligations)",
+    "definitional lemma first_idx_definition (least index in residue.atoms of an atom with the given name, -1 if absent); Residue3D.find_atom is proved to return it",
+    "Saenger reference = spec/tables.py SAENGER (Saenger 1984 numbering as used by RNApolis); BPh/BR class table = spec/tables.py BPH_FIXED / BPH_TORSION. The code "
+    "comment at annotator.py:99 cites Zirbel et al. but does not spell the table out, so the BPh/BR pin is a regression pin of the table (an edited class is a named "
+    "violation), not an independent derivation; independent of the pin are the clauses 'class in 0..9 or None' and 'class is a function of (base, donor atom name, "
+    "presence of the two reference atoms, torsion sign)'",
+    "the symmetry lemma is about one-character base names (len == 1): for longer names 'a'+'b' is ambiguous",
+    "A-real; the torsion sign test of the amino donors is sandwiched by EPS = 1e-6 degrees around +-90 (inside (-90+EPS, 90-EPS) => cis class, outside "
+    "[-90-EPS, 90+EPS] => trans class, in between either), following 'contacts within 1e-6 of a threshold are undecided'",
+]
+EXPLANATION = (
+    "Deductive (pyvc, SMT), complete over their domains: (a) LeontisWesthof.reverse under contract for a symbolic member - result keeps the cis/trans letter and swaps "
+    "the two edge letters, never raises KeyError; lemma lw_reverse_involution: on the 18 member names the swap is an involution and stays inside the enum (so reverse "
+    "is an involution on the members). (b) detect_saenger under contract with the table read from the real module: the result is None exactly when (base_i+base_j, lw) "
+    "is not in the pinned table and otherwise is the pinned class (every table value is a Saenger member name: no KeyError); lemmas saenger_*_table_reverse_symmetric: "
+    "for ALL one-character names a, b (string variables) and all 18 classes v, table(a+b, v) == table(b+a, swap(v)), for the pinned and for the real table - hence "
+    "detect_saenger(i, j, lw) == detect_saenger(j, i, lw.reverse). (c) detect_bph_br_classification (loop-free, 123 obligations): class of the fixed donors per pinned "
+    "table; N6/N2/N4 donors: 6|7, 1|3, 6|7 by the sign test of the torsion (reference atoms found by find_atom, None if one is missing); None for every other "
+    "(base, donor); class in 0..9. Residue3D.find_atom (loop with invariant): first atom of that name or None. "
+    "Exhaustive over a finite domain (NOT SMT, backend 'exhaustive-finite', real objects imported from the module under test): reverse.reverse is the identity and "
+    "swaps letters on the 18 real members; real Saenger table == pinned table and its values are member names; detect_saenger symmetric on all 25*18 (ACGUT)^2 x LW "
+    "inputs built from real Residue3D objects; (d) merge_and_clean_bph_br on every ordered sequence of distinct classes from {0,1,2,3,5,6,7,9} (the classes "
+    "detect_bph_br_classification can return) for ONE residue pair (109,600 inputs): exactly one key, exactly one class, the class lies in the merged set (3 and 5 "
+    "together count as 4, 7 and 9 as 8, so 3/5 resp. 7/9 are never reported when both were present), plus all two-pair inputs with up to 2 classes per pair "
+    "(independence of pairs on that domain). For (d) this is a finite check, not a proof for arbitrary input lists: independence of different pairs beyond that domain "
+    "and insensitivity to repeated triples are not proved (the function needs OrderedSet/defaultdict objects allocated inside loops, which pyvc does not model soundly yet). "
+    "What stays bounded: all list-level clauses of C11 on find_pairs / find_stackings output (no repeats, no self pairs, participants in the model, orientation, sorting, "
+    "contact soundness) - for stackings the orientation / once / sorted clauses are proved under C04."
+)
 
 def bounded(tier, seed):
     return [_geom.run("list-wellformedness", tier, seed,
@@ -19,3 +60,89 @@ def bounded(tier, seed):
 
 from props._util import make_replay
 replay = make_replay(bounded)
+
+
+def deductive_extra(tier, seed):
+    """finite-domain checks by plain exhaustive evaluation of the REAL objects (no SMT); records shaped like the engine's"""
+    import itertools
+    import time as _t
+    from rnapolis import annotator as A
+    from rnapolis.common import LeontisWesthof, ResidueAuth, ResidueLabel, Saenger
+    from rnapolis.tertiary import Residue3D
+    from spec import tables as T
+
+    def residue(k, name="A"):
+        return Residue3D(ResidueLabel("A", k, name), ResidueAuth("A", k, None, name), 1, name, tuple())
+
+    def run(target, module, checks):
+        obls = []
+        for name, fn, domain in checks:
+            t0 = _t.time()
+            bad = None
+            n = 0
+            try:
+                for x in domain():
+                    n += 1
+                    if not fn(x):
+                        bad = repr(x)[:300]
+                        break
+            except Exception as e:  # an exception of the real function on a domain element is a failed obligation
+                bad = f"raised {type(e).__name__}: {e}"[:300]
+            obls.append({"name": f"{target}#{name}[exhaustive over {n} inputs]" if bad is None else f"{target}#{name}", "kind": "finite",
+                         "result": "unsat" if bad is None else "sat", "backend": "exhaustive-finite", "ms": int((_t.time() - t0) * 1000),
+                         "model": None if bad is None else {"input": bad}, "reason": "" if bad is None else f"fails on {bad}", "line": None})
+        return {"target": target + " (finite)", "module": module, "status": "proved" if all(o["result"] == "unsat" for o in obls) else "failed",
+                "obligations": obls, "kind": "finite", "reason": ""}
+
+    members = list(LeontisWesthof)
+    rec_a = run("LeontisWesthof.reverse", "rnapolis.common", [
+        ("reverse-is-an-involution-on-the-members", lambda m: m.reverse.reverse is m, lambda: members),
+        ("reverse-swaps-the-edge-letters", lambda m: m.reverse.name == m.name[0] + m.name[2] + m.name[1] and m.reverse.value == m.reverse.name, lambda: members),
+    ])
+    table = Saenger.table()
+    bases = "ACGUT"
+    rs = {b: residue(k, b) for k, b in enumerate(bases)}
+    rec_b = run("detect_saenger", "rnapolis.annotator", [
+        ("saenger-table-equals-pinned-table", lambda _: dict(table) == dict(T.SAENGER), lambda: [0]),
+        ("saenger-table-values-are-member-names", lambda v: v in Saenger.__members__, lambda: list(table.values())),
+        ("saenger-identical-for-a-pair-and-its-reverse",
+         lambda x: A.detect_saenger(rs[x[0]], rs[x[1]], x[2]) == A.detect_saenger(rs[x[1]], rs[x[0]], x[2].reverse),
+         lambda: itertools.product(bases, bases, members)),
+        ("saenger-present-exactly-when-defined",
+         lambda x: (A.detect_saenger(rs[x[0]], rs[x[1]], x[2]) is None) == ((x[0] + x[1], x[2].value) not in T.SAENGER)
+         and (A.detect_saenger(rs[x[0]], rs[x[1]], x[2]) is None or A.detect_saenger(rs[x[0]], rs[x[1]], x[2]).name == T.SAENGER[(x[0] + x[1], x[2].value)]),
+         lambda: itertools.product(bases, bases, members)),
+    ])
+    producible = (0, 1, 2, 3, 5, 6, 7, 9)
+    r1, r2, r3 = residue(1), residue(2), residue(3)
+
+    def merged(classes):
+        m = set(classes)
+        if 3 in m and 5 in m:
+            m = (m - {3, 5}) | {4}
+        if 7 in m and 9 in m:
+            m = (m - {7, 9}) | {8}
+        return m
+
+    def one_pair(seq):
+        out = A.merge_and_clean_bph_br([(r1, r2, c) for c in seq])
+        return list(out.keys()) == [(r1, r2)] and len(out[(r1, r2)]) == 1 and out[(r1, r2)][0] in merged(seq)
+
+    def two_pairs(x):
+        sa, sb, interleave = x
+        ta, tb = [(r1, r2, c) for c in sa], [(r1, r3, c) for c in sb]
+        inp = [t for pair in itertools.zip_longest(ta, tb) for t in pair if t is not None] if interleave else ta + tb
+        out = A.merge_and_clean_bph_br(inp)
+        alone_a, alone_b = A.merge_and_clean_bph_br(ta), A.merge_and_clean_bph_br(tb)
+        return set(out.keys()) == {(r1, r2), (r1, r3)} and list(out[(r1, r2)]) == list(alone_a[(r1, r2)]) and list(out[(r1, r3)]) == list(alone_b[(r1, r3)])
+
+    def sequences(maxlen):
+        for k in range(1, maxlen + 1):
+            yield from itertools.permutations(producible, k)
+
+    rec_d = run("merge_and_clean_bph_br", "rnapolis.annotator", [
+        ("one-key-one-class-from-the-merged-set(3+5->4,7+9->8)", one_pair, lambda: sequences(len(producible))),
+        ("pairs-do-not-influence-each-other", two_pairs,
+         lambda: ((a, b, i) for a in sequences(2) for b in sequences(2) for i in (False, True))),
+    ])
+    return [rec_a, rec_b, rec_d]
